@@ -59,6 +59,12 @@ Theorem parallel_lowest_index_wins : forall (os : list outcome) (workers : nat) 
 Proof. exact parallel_lowest_index_wins_l. Qed.
 Print Assumptions parallel_lowest_index_wins.
 
+(* The premise can be met for every input and worker count: some interleaving lets all workers return. *)
+Theorem parallel_run_completes : forall (os : list outcome) (workers : nat),
+  exists sched, quiescent (prun os workers sched) = true.
+Proof. exact parallel_run_completes_l. Qed.
+Print Assumptions parallel_run_completes.
+
 (* ---- the pod across its relaxation levels (trySchedule) ----
    [outs] gives, per relaxation level of the pod, the outcome of every pool.  The pod gets its node at the first
    level at which any pool is not a plain failure, from the pool that no feasible pool outranks AT THAT LEVEL. *)
